@@ -279,6 +279,15 @@ Theorem C15_iter_m_times : forall (X : Type) (m : nat) (p : pen NumR X),
 Proof. exact iter_m_times. Qed.
 Print Assumptions C15_iter_m_times.
 
+(* "h raised to the current iteration": after iter() / iter(i) the formula holds with the new counter *)
+Theorem C15_iter_then_value : forall (lg : R -> R) (X : Type) base (l : lvl X) r (x : X) k c (i : option nat),
+  simple (lk _ _ l) -> lmul _ _ l = Some k -> lcond _ _ l x = cv c ->
+  pfun lg X base (p_iter NumR X i (l :: r)) x =
+    FinR (simple_amount (lk _ _ l) (k * lh _ _ l ^ (match i with None => S (ln _ _ l) | Some j => j end)) c)
+    +x pfun lg X base (p_iter NumR X i r) x.
+Proof. exact iter_then_value. Qed.
+Print Assumptions C15_iter_then_value.
+
 Theorem C15_clear_after_any_script : forall (X : Type) (ops : list (op X)) (p : pen NumR X),
   Forall (fun l => ln _ _ l = 0%nat /\ ly _ _ l = []) (run NumR X (ops ++ [OpClear X 0]) p).
 Proof. exact clear_after_any_script. Qed.
